@@ -20,7 +20,8 @@ import sharda_util as su
 LEVEL = "model_checking"
 
 SIG = {"crashdel": "orphan-blob:crash-between-meta-and-blob-step-of-deleteObjs+resync",
-       "delfail": "orphan-blob:ignored-blob-delete-error+resync"}
+       "delfail": "orphan-blob:ignored-blob-delete-error+resync",
+       "flushrace": "orphan-blob:flush-vs-delete-race+resync"}
 
 
 def P(a, crash=0):
@@ -38,6 +39,11 @@ def D(c, ids, crash=0, fail=0):
 FL = {"op": "Flush", "a": 0, "c": 0, "ids": [], "crash": 0, "fail": 0}
 EP = {"op": "Epoch"}
 RS = {"op": "Resync"}
+FR = {"op": "FlushRelease"}
+
+
+def FH(a):
+    return {"op": "FlushHold", "a": a}
 RT = {"op": "Restart"}
 
 
@@ -62,6 +68,13 @@ def deliberate():
         out.append({"wc": wc, "batch": 2, "steps": [P(1), P(3), GC(crash=1), RS, GC(), EP, EP, EP, GC(), RS]})
         # crash after the blob step: clean
         out.append({"wc": wc, "batch": 2, "steps": [P(1)] + fl + [M(1, [1]), GC(crash=3), RS]})
+        if wc:
+            # flush-versus-delete schedules: the flush has read object 1 from the cache, the object is removed
+            # (dropped / tombstoned + GC), then the flush writes the stale bytes into the blobstor
+            out.append({"wc": True, "batch": 2, "steps": [P(1), P(2), FH(1), M(1, [1]), GC(), FR, RS]})
+            out.append({"wc": True, "batch": 2, "steps": [P(1), P(3), FH(1), GC(), FR, EP, EP, EP, GC(), GC(), RS]})
+            out.append({"wc": True, "batch": 2, "steps": [P(1), P(3), FH(3), GC(), FR, EP, EP, EP, GC(), GC(), RS, RS]})   # control: the tombstone is flushed late
+            out.append({"wc": True, "batch": 2, "steps": [P(1), FH(1), D(1, [1], crash=2), P(1), FL, M(1, [1]), GC(), RS]})
         # crash inside the put of the tombstone, then the rest
         out.append({"wc": wc, "batch": 2, "steps": [P(1), P(3, crash=1), RS, P(3), GC(), EP, EP, EP, GC(), RS]})
     return out
@@ -76,6 +89,7 @@ def run(ck):
         if thorough:
             ck.tlc_model("Shard", "Shard_C09t.cfg", timeout=2400)
             ck.tlc_model("Shard", "Shard_C09fixed.cfg", timeout=1200)
+            ck.tlc_model("Shard", "Shard_C09race.cfg", timeout=2400)     # + flush-versus-delete schedules
             ck.setcov("repaired_model_strict_property", True)
     binp = ck.gobuild("sharda")
     if ck.replay:
@@ -126,6 +140,7 @@ def run(ck):
         "resync = what `neofs-lancet meta resync` does (meta.DB.ResyncFromBlobstor on the closed shard's files)",
         "expired-objects callback = single-shard equivalent of engine.processExpiredObjects",
         "background flush scheduler of the write-cache is gated (hook writecache.sched.round); flushes happen when "
-        "the script says (Shard.FlushWriteCache); flush-vs-delete races belong to C16 (family shardb)",
+        "the script says (Shard.FlushWriteCache); flush-versus-delete: an explicit flush is paused (blobstor decorator) between "
+        "reading an object from the cache and writing it, other requests run meanwhile; worker/scheduler races are C16 (shardb)",
         "readable = Shard.Get(addr, skipMeta=false) returns the stored bytes; ReviveObject (explicit operator undo) excluded",
     ]
